@@ -18,9 +18,10 @@ var pkgSub = map[string]string{
 	"github.com/gocql/gocql/internal/streams": "streams",
 	"github.com/gocql/gocql/internal/murmur":  "murmur",
 	"github.com/gocql/gocql/internal/lru":     "lru",
+	"github.com/gocql/gocql/lz4":              "lz4",
 }
 
-var subPkgName = map[string]string{"gocql": "gocql", "streams": "streams", "murmur": "murmur", "lru": "lru"}
+var subPkgName = map[string]string{"gocql": "gocql", "streams": "streams", "murmur": "murmur", "lru": "lru", "lz4": "lz4"}
 
 type replayCase struct {
 	ID     string            `json:"id"`
